@@ -5,6 +5,7 @@ compile_error!("the simulator must be built with --cfg resolved_verif");
 
 mod cache_engine;
 mod netactors;
+mod props_local;
 mod props_resolve;
 mod resolve_engine;
 mod runner;
@@ -21,9 +22,11 @@ static C07: props_resolve::C07 = props_resolve::C07;
 static C18: props_resolve::C18 = props_resolve::C18;
 static C08: props_resolve::C08 = props_resolve::C08;
 static C10: props_resolve::C10 = props_resolve::C10;
+static C06: props_resolve::C06 = props_resolve::C06;
+static C01: props_local::C01 = props_local::C01;
 
 fn properties() -> Vec<&'static dyn Property> {
-    vec![&C05, &C15, &C07, &C18, &C08, &C10]
+    vec![&C05, &C15, &C07, &C18, &C08, &C10, &C06, &C01]
 }
 
 fn find(id: &str) -> &'static dyn Property {
